@@ -10,6 +10,10 @@ use std::io::BufWriter;
 use std::io::Write as _;
 use thiserror::Error;
 
+#[cfg(all(test, feature = "hotstuff_verif"))]
+#[path = "/verif/replay/node_config.rs"]
+mod verif_replay;
+
 #[derive(Error, Debug)]
 pub enum ConfigError {
     #[error("Failed to read config file '{file}': {message}")]
